@@ -137,6 +137,8 @@ def behaviour(sinks, xtable, role):
 
 def check(ctx):
     repo = ctx.repo
+    from . import generic as _gen
+    _gen.language_traps(ctx, _gen.anchor_functions(repo, "C12"), "the property holds for every input, on every call")
     for r, t in (("TNT-route", "path flows only to xopen / makedirs_for_file / delegated sibling / tabled external API; writer and "
                                "reader agree on the file addressed and on (de)compression for every suffix"),
                  ("SIB-10", "xopen suffix table, mode forwarding, text/binary mode class agreement"),
